@@ -1002,3 +1002,10 @@ func vfSorted(l []string) []string {
 }
 
 func vfStrs(l []string) string { return "[" + strings.Join(l, ", ") + "]" }
+
+// vfViaCommon reaches the non-test helper from THIS test file (zz_verif_common_test.go).
+//
+//go:noinline
+func vfViaCommon(cfg *Config, t testingT, v any) {
+	vfNonTestMatch(cfg, t, v)
+}
